@@ -69,8 +69,8 @@ func (b *B) I(vs ...int) *B {
 	}
 	return b
 }
-func (b *B) I64(v int64) *B   { b.L = append(b.L, big.NewInt(v)); return b }
-func (b *B) U64(v uint64) *B  { b.L = append(b.L, new(big.Int).SetUint64(v)); return b }
+func (b *B) I64(v int64) *B    { b.L = append(b.L, big.NewInt(v)); return b }
+func (b *B) U64(v uint64) *B   { b.L = append(b.L, new(big.Int).SetUint64(v)); return b }
 func (b *B) Big(v *big.Int) *B { b.L = append(b.L, new(big.Int).Set(v)); return b }
 func (b *B) Bool(v bool) *B {
 	if v {
@@ -101,8 +101,8 @@ type D struct {
 }
 
 func NewD(l []*big.Int) *D { return &D{L: l} }
-func (d *D) Left() int    { return len(d.L) - d.pos }
-func (d *D) Pos() int     { return d.pos }
+func (d *D) Left() int     { return len(d.L) - d.pos }
+func (d *D) Pos() int      { return d.pos }
 func (d *D) Big() *big.Int {
 	if d.pos >= len(d.L) {
 		d.Bad = true
@@ -112,8 +112,8 @@ func (d *D) Big() *big.Int {
 	d.pos++
 	return v
 }
-func (d *D) Int() int    { return int(d.Big().Int64()) }
-func (d *D) Bool() bool  { return d.Big().Sign() != 0 }
+func (d *D) Int() int   { return int(d.Big().Int64()) }
+func (d *D) Bool() bool { return d.Big().Sign() != 0 }
 func (d *D) Str() string {
 	n := d.Int()
 	if n < 0 || n > d.Left() {
@@ -231,7 +231,7 @@ func Run2(t *testing.T, gen func(r *Rand) [][]*big.Int, eval func(in []*big.Int)
 			t.Fatalf("replay: %v", err)
 		}
 		for i := range in {
-			inputs = append(inputs, in[i])
+			inputs = append(inputs, stripObserved(in[i]))
 			tags = append(tags, fmt.Sprintf("r%d", i))
 		}
 	} else {
@@ -241,7 +241,7 @@ func Run2(t *testing.T, gen func(r *Rand) [][]*big.Int, eval func(in []*big.Int)
 				t.Fatalf("corpus: %v", err)
 			}
 			for i := range in {
-				inputs = append(inputs, in[i])
+				inputs = append(inputs, stripObserved(in[i]))
 				tags = append(tags, fmt.Sprintf("c%d", i))
 			}
 		}
@@ -301,4 +301,15 @@ func (b *B) Rec(r *B) *B {
 	b.I(len(r.L))
 	b.L = append(b.L, r.L...)
 	return b
+}
+
+// stripObserved drops what an earlier run appended to an input (the marker -555, the length and the observed output): a
+// replayed or corpus input is evaluated afresh and annotated with what THIS run observes.
+func stripObserved(in []*big.Int) []*big.Int {
+	for i, v := range in {
+		if v.IsInt64() && v.Int64() == -555 {
+			return in[:i]
+		}
+	}
+	return in
 }
